@@ -255,7 +255,7 @@ Fixpoint bits_ok (orig : N) (i : N) (vs : list dvar) : bool :=
       (dv_kind v =? KIND_BINARY)%Z &&
       optb (fun p q => ext_eqb (fst p) (fst q) && ext_eqb (snd p) (snd q)) (dv_bound v) (Some (Fin 0, Fin 1)) &&
       optb qeqb (dv_subst v) None &&
-      tree_eqb (nth 1 (dv_meta v) (L [])) (L [I (Z.of_N orig); I (Z.of_N i)]) &&
+      tree_eqb (nth 1 (dv_meta v) (L [])) (L [I (as_i64 orig); I (Z.of_N i)]) &&
       bits_ok orig (i + 1) vs'
   end.
 
